@@ -1,6 +1,10 @@
 #!/usr/bin/env python3
 """python3 lib/c12_flip.py fixed|current
 
+NOTE (round 2): the fix is committed in /repo (179da67) and the repaired merges are the live definitions
+(`Props.merge`, `Ent.mergeKinds`); `fixed` is the default everywhere.  This script is kept only to go back
+(`current` = `mode old` in the driver = the frozen pre-fix merges `Props.mergeOld` / `Ent.mergeKindsOld`).
+
 Switches the C12 tie between the merges as they were found in /repo (`current`, finding F4) and the repaired merges of
 hooks/C12-fix.patch (`fixed`).  Run `fixed` right after the fix is committed to /repo:
   * harness/c12.go   var c12Mode            -> generated cases start with `mode <m>` (the Lean driver then runs that merge)
